@@ -99,6 +99,14 @@ func (b *Stack[T]) WaitSizeIsAbove(threshold int) {
 	}
 }
 
+// SignalShutdown wakes up all callers of PopOrWait so that they re-evaluate their waitCondition. It has to be called
+// after the change that makes the waitCondition false.
 func (b *Stack[T]) SignalShutdown() {
+	// PopOrWait holds the mutex from the evaluation of its waitCondition until it is registered as a waiter: once we
+	// passed through the mutex, every caller has either not evaluated the (now false) condition yet or will be woken up.
+	//nolint:staticcheck // empty critical section on purpose
+	b.mutex.Lock()
+	b.mutex.Unlock()
+
 	b.elementAdded.Broadcast()
 }
